@@ -108,6 +108,48 @@ class World:
             self._straight[fn] = v
         return v
 
+    PURE_EXTERNAL = {'min', 'max', 'eq', 'ne', 'lt', 'le', 'gt', 'ge', 'len', 'is_empty', 'clone', 'into', 'from', 'try_into', 'try_from', 'unwrap_or',
+                     'unwrap_or_default', 'deref', 'as_ref', 'cmp', 'partial_cmp', 'is_some', 'is_none', 'is_ok', 'is_err', 'contains', 'contains_key',
+                     'get', 'first', 'last', 'abs', 'saturating_sub', 'saturating_add', 'clamp', 'index'}
+
+    def is_small_pure(self, fn, _stack=()):
+        """no loops, few blocks, no `&mut` parameters, no stores through references, only pure callees"""
+        k = ('pure', fn)
+        if k in self._straight:
+            return self._straight[k]
+        if fn in _stack:
+            return False
+        v = True
+        blocks = [b for b in fn.blocks if not b.cleanup]
+        if len(blocks) > 24 or fn.kind not in ('fn', 'method'):
+            v = False
+        if v and any(fn.local_ty(i).startswith('&mut') for i in range(1, fn.argc + 1)):
+            v = False
+        if v and cfg_of(fn).back_edges():
+            v = False
+        if v:
+            for b in blocks:
+                for st in b.stmts:
+                    if st.k != 'assign' or any(e == 'deref' for e in st.place.proj):
+                        v = False
+                t = b.term
+                if t.k == 'call':
+                    if any(m in ('trace', 'debug', 'warn', 'info', 'error') for m in t.macros):
+                        continue
+                    if t.callee.indirect is not None:
+                        v = False
+                        continue
+                    tg = self.cg.targets(t.callee)
+                    if tg:
+                        if not all(self.is_straight_line(x) and self.is_small_pure(x, _stack + (fn,)) or self.is_small_pure(x, _stack + (fn,)) for x in tg):
+                            v = False
+                    elif last_seg(t.callee.best) not in self.PURE_EXTERNAL:
+                        if t.target is None:
+                            continue   # a diverging call (panic): the path does not return
+                        v = False
+        self._straight[k] = v
+        return v
+
     def promoted_expr(self, parent_path, idx):
         k = (parent_path, idx)
         if k in self._promoted:
@@ -122,6 +164,16 @@ class World:
                     r = None
         self._promoted[k] = r
         return r
+
+    def closure_site(self, clo):
+        """(parent function, the Aggregate statement that builds this closure)"""
+        if not hasattr(self, '_closure_sites'):
+            self._closure_sites = {}
+            for f in self.fns():
+                for s in f.stmts():
+                    if s.k == 'assign' and s.rv.k == 'agg' and s.rv.j.get('ak') == 'closure':
+                        self._closure_sites[strip_generics(s.rv.j['closure'])] = (f, s)
+        return self._closure_sites.get(clo.path)
 
     def closures_of(self, fn):
         r = []
@@ -254,13 +306,15 @@ class Effects:
         for w in self.by_fn.get(fn, []):
             ap = w['ap']
             if w['kind'] == 'store':
-                if ap.root[0] in ('arg', 'upvar'):
+                if ap.root[0] in ('arg', 'upvar') or (ap.root[0] == 'expr' and ap.root[1].split('.')[0].split('[')[0] in ('self',) or
+                                                     (ap.root[0] == 'expr' and ap.root[1].startswith('arg'))):
                     out.add(ap.s(fn, generic=True))
                 continue
             # a call receiving &mut
             t = w['site']
             tg = W.cg.targets(t.callee)
-            base = ap.s(fn, generic=True) if ap.root[0] in ('arg', 'upvar') else None
+            rooted = ap.root[0] in ('arg', 'upvar') or (ap.root[0] == 'expr' and (ap.root[1].startswith('self') or ap.root[1].startswith('arg')))
+            base = ap.s(fn, generic=True) if rooted else None
             if tg:
                 for g in tg:
                     sub = self.of(g, _stack + (fn,))
@@ -269,7 +323,8 @@ class Effects:
                         nm = 'self' if g.local_name(i + 1) == 'self' else 'arg%d' % (i + 1)
                         if a.is_place():
                             apc = cx.ap_carry(a.place)
-                            mapping[nm] = apc.s(fn, generic=True) if apc.root[0] in ('arg', 'upvar') else None
+                            okr = apc.root[0] in ('arg', 'upvar') or (apc.root[0] == 'expr' and (apc.root[1].startswith('self') or apc.root[1].startswith('arg')))
+                            mapping[nm] = apc.s(fn, generic=True) if okr else None
                         else:
                             mapping[nm] = None
                     for e in sub:
@@ -288,5 +343,7 @@ class Effects:
                 if e.startswith('^'):
                     e2 = e[1:]
                     out.add(e2 if e2.startswith('self') else '^' + e2 if fn.kind == 'closure' else e2)
+                elif e.startswith('self') and not (c.local_name(1) == 'self'):
+                    out.add(e)   # already expressed in the parent's terms (resolved capture)
         self.memo[fn] = out
         return out
